@@ -46,7 +46,7 @@ pub fn case_loop(ctx: &Ctx, rep: &mut Report, mut f: impl FnMut(u64, u64, &mut R
 pub fn run_sim(ctx: &Ctx, rep: &mut Report) {
     match ctx.prop.as_str() {
         "C01" | "C04" | "C05" | "C06" | "C18" | "C19" => sched::run(ctx, rep),
-        "C02" | "C03" | "C07" | "C08" | "C09" | "C17" | "C13" => hist::run(ctx, rep),
+        "C02" | "C03" | "C07" | "C08" | "C09" | "C17" | "C13" | "C15" => hist::run(ctx, rep),
         p => {
             rep.inconclusive.push(format!("no sim workload for {}", p));
         }
